@@ -922,6 +922,61 @@ func c01DispatchCalls(f, entry *ssa.Function) []c01Dispatch {
 			}
 		}
 	}
+	out = append(out, c01StepDispatches(f, entry)...)
+	return out
+}
+
+// c01StepDispatches: the hand-over sits in a step closure of a step table of f (`for _, step := range []func() error{
+// func() error { return syncutil.Go(ctx, limiter, entry, items...) }, …}`).  The dispatch happens at the table's
+// step() call of f; the items are what f last stored into the captured variable before the step closure was made
+// (one reaching store, none afterwards, none in a closure), else the step's own read of the variable.
+func c01StepDispatches(f, entry *ssa.Function) []c01Dispatch {
+	var out []c01Dispatch
+	if f == nil || len(f.Blocks) == 0 {
+		return nil
+	}
+	for _, sl := range c11StepLoops(f) {
+		for _, sv := range sl.Steps {
+			mk, isMk := sv.(*ssa.MakeClosure)
+			if !isMk || mk.Parent() != f {
+				continue
+			}
+			S := mk.Fn.(*ssa.Function)
+			if strings.HasPrefix(S.Synthetic, "bound method") || len(S.Blocks) == 0 {
+				continue
+			}
+			for _, g := range CallsTo(S, nGo) {
+				if _, isDefer := g.(*ssa.Defer); isDefer || len(g.Common().Args) < 3 {
+					continue
+				}
+				if fn, _ := c01FuncOfValue(g.Common().Args[2]); fn != entry {
+					continue
+				}
+				items := variadicArg(g)
+				if ld, isLd := strip(items).(*ssa.UnOp); isLd && ld.Op == token.MUL {
+					if fv, isFV := ld.X.(*ssa.FreeVar); isFV && !freeVarWritten(S, fv) {
+						for i, b := range mk.Bindings {
+							cell, isCell := b.(*ssa.Alloc)
+							if S.FreeVars[i] != fv || !isCell || len(closureWriters(cell)) > 0 {
+								continue
+							}
+							sts := ReachingStores(cell, mk)
+							late := false
+							for _, st := range storesTo(cell) {
+								if Reachable(mk, st) {
+									late = true
+								}
+							}
+							if len(sts) == 1 && sts[0] != nil && !late {
+								items = sts[0].Val
+							}
+						}
+					}
+				}
+				out = append(out, c01Dispatch{Call: sl.Call, Items: items, Limiter: g.Common().Args[1], GoCall: g})
+			}
+		}
+	}
 	return out
 }
 
